@@ -310,77 +310,98 @@ def run_path(case):
                 # every rotation and every adjacent transposition of the supplied list
                 orders += [idx[k:] + idx[:k] for k in range(2, len(idx))]
                 orders += [idx[:k] + [idx[k + 1], idx[k]] + idx[k + 2:] for k in range(len(idx) - 1)]
-        kept = expected_kept(spec, common)
-        base = None
-        for order in orders:
-            sp = spec if order is None else [spec[i] for i in order]
-            req = c.make_request(equipment, path[0].uid, path[-1].uid, spectrum=None if order is None else sp)
-            try:
-                pth, si, rec = c.propagate_recorded(path, req, equipment)
-            except ValueError as exc:
-                if not kept and 'does not match' in str(exc):
-                    tags['no-channel-in-band'] = 1
-                    continue
-                viol.append(dict(fingerprint=f'propagation-raised:{type(exc).__name__}', what=f'{where}: {exc}'))
-                break
-            except Exception as exc:  # noqa
-                viol.append(dict(fingerprint=f'propagation-raised:{type(exc).__name__}', what=f'{where} order {order}: '
-                                 f'{type(exc).__name__}: {str(exc)[:200]}'))
-                break
-            transitions += len(rec.steps)
-            first = rec.steps[0]['pre']
-            exp_f = [x['f'] for x in kept]
-            if not np.allclose(sorted(first['f'].tolist()), exp_f, rtol=0, atol=1.0) or len(first['f']) != len(exp_f):
-                got = first['f'].tolist()
-                missing = [x['label'] for x in kept if not any(abs(x['f'] - g) < 1 for g in got)]
-                extra = [g for g in got if not any(abs(x['f'] - g) < 1 for x in kept)]
-                viol.append(dict(fingerprint='filter-set-differs', what=f'{where}: after the band filter {len(got)} channels, '
-                                 f'expected {len(exp_f)}; missing {missing}; unexpected {extra}; common bands {common}'))
-                break
-            if order is not None:
-                exp_id = sorted((x['f'], x['baud'], x['slot'], x['label'], x['tx_osnr'], 1e-3 * 10 ** (x['power_dbm'] / 10), 0.15)
-                                for x in kept)
-                if not all(np.allclose(a[:3] + a[4:], b[:3] + b[4:], rtol=1e-12) and a[3] == b[3] for a, b in zip(ident(first), exp_id)):
-                    viol.append(dict(fingerprint='channel-data-mixed-up', what=f'{where} order {order}: launched '
-                                     f'{ident(first)[:3]} expected {exp_id[:3]}'))
-                    break
-            ref_id = ident(first)
-            ok = True
-            for st in rec.steps:
-                for k in ('pre', 'post'):
-                    s = st[k]
-                    if ident(s) != ref_id:
-                        lost = len(ref_id) - len(s['f'])
-                        viol.append(dict(fingerprint='channel-set-changed-on-path', what=f'{where}: at {st["cls"]} {st["uid"]} '
-                                         f'({k}) the channel set / per-channel data differs from the launched one '
-                                         f'({len(s["f"])} vs {len(ref_id)} channels)'))
-                        ok = False
-                        break
-                    fr = s['f']
-                    if (np.diff(fr) <= 0).any():
-                        viol.append(dict(fingerprint='not-in-frequency-order', what=f'{where}: at {st["uid"]} frequencies not '
-                                         'strictly increasing'))
-                        ok = False
-                        break
-                if not ok:
-                    break
-            if not ok:
-                break
-            rx = pth[-1]
-            if len(rx.snr) != len(ref_id):
-                viol.append(dict(fingerprint='receiver-channel-count', what=f'{where}: receiver reports {len(rx.snr)} channels'))
-                break
-            result = {'f': rec.steps[-1]['post']['f'], 'pch': rec.steps[-1]['post']['pch'], 'sr': rec.steps[-1]['post']['sr'],
-                      'ar': rec.steps[-1]['post']['ar'], 'nr': rec.steps[-1]['post']['nr'], 'snr': np.array(rx.snr_01nm)}
-            if base is None:
-                base = result
-            else:
-                for k in base:
-                    if not np.allclose(result[k], base[k], rtol=1e-12, atol=0):
-                        viol.append(dict(fingerprint='order-dependent-result', what=f'{where}: carriers supplied in order {order} '
-                                         f'give different {k}: {result[k][:3]} vs {base[k][:3]}'))
-                        break
-            traces += 1
+        # the same path (same element objects) then carries a second spectrum with the same channel count and the same
+        # first / last channel but another split between the bands
+        specs = [spec]
+        if case['spectrum'] != 'uniform' and len(common) >= 2:
+            moved = next((x for x in spec if x['label'] == 'middle' and common[-1][0] <= x['f'] <= common[-1][1]), None)
+            if moved is not None and spec.index(moved) not in (0, len(spec) - 1):
+                lo0 = common[0][0]
+                alt = dict(moved, f=lo0 + 1.0e12, label='moved_to_first_band')
+                if all(abs(alt['f'] - x['f']) >= (alt['slot'] + x['slot']) / 2 for x in spec if x is not moved):
+                    specs.append(sorted([x for x in spec if x is not moved] + [alt], key=lambda x: x['f']))
+                    tags['second-spectrum-other-split'] = 1
+        live = None
+        for spec in specs:
+          if viol:
+              break
+          base = None
+          kept = expected_kept(spec, common)
+          base = None
+          for order in orders:
+              sp = spec if order is None else [spec[i] for i in order]
+              req = c.make_request(equipment, path[0].uid, path[-1].uid, spectrum=None if order is None else sp)
+              try:
+                  if spec is not specs[0] and live is not None:
+                      # second spectrum: on the element objects that carried the first one
+                      pth, si, rec = c.propagate_recorded(live, req, equipment, copy_path=False)
+                  else:
+                      pth, si, rec = c.propagate_recorded(path, req, equipment)
+                      live = pth
+              except ValueError as exc:
+                  if not kept and 'does not match' in str(exc):
+                      tags['no-channel-in-band'] = 1
+                      continue
+                  viol.append(dict(fingerprint=f'propagation-raised:{type(exc).__name__}', what=f'{where}: {exc}'))
+                  break
+              except Exception as exc:  # noqa
+                  viol.append(dict(fingerprint=f'propagation-raised:{type(exc).__name__}', what=f'{where} order {order}: '
+                                   f'{type(exc).__name__}: {str(exc)[:200]}'))
+                  break
+              transitions += len(rec.steps)
+              first = rec.steps[0]['pre']
+              exp_f = [x['f'] for x in kept]
+              if not np.allclose(sorted(first['f'].tolist()), exp_f, rtol=0, atol=1.0) or len(first['f']) != len(exp_f):
+                  got = first['f'].tolist()
+                  missing = [x['label'] for x in kept if not any(abs(x['f'] - g) < 1 for g in got)]
+                  extra = [g for g in got if not any(abs(x['f'] - g) < 1 for x in kept)]
+                  viol.append(dict(fingerprint='filter-set-differs', what=f'{where}: after the band filter {len(got)} channels, '
+                                   f'expected {len(exp_f)}; missing {missing}; unexpected {extra}; common bands {common}'))
+                  break
+              if order is not None:
+                  exp_id = sorted((x['f'], x['baud'], x['slot'], x['label'], x['tx_osnr'], 1e-3 * 10 ** (x['power_dbm'] / 10), 0.15)
+                                  for x in kept)
+                  if not all(np.allclose(a[:3] + a[4:], b[:3] + b[4:], rtol=1e-12) and a[3] == b[3] for a, b in zip(ident(first), exp_id)):
+                      viol.append(dict(fingerprint='channel-data-mixed-up', what=f'{where} order {order}: launched '
+                                       f'{ident(first)[:3]} expected {exp_id[:3]}'))
+                      break
+              ref_id = ident(first)
+              ok = True
+              for st in rec.steps:
+                  for k in ('pre', 'post'):
+                      s = st[k]
+                      if ident(s) != ref_id:
+                          lost = len(ref_id) - len(s['f'])
+                          viol.append(dict(fingerprint='channel-set-changed-on-path', what=f'{where}: at {st["cls"]} {st["uid"]} '
+                                           f'({k}) the channel set / per-channel data differs from the launched one '
+                                           f'({len(s["f"])} vs {len(ref_id)} channels)'))
+                          ok = False
+                          break
+                      fr = s['f']
+                      if (np.diff(fr) <= 0).any():
+                          viol.append(dict(fingerprint='not-in-frequency-order', what=f'{where}: at {st["uid"]} frequencies not '
+                                           'strictly increasing'))
+                          ok = False
+                          break
+                  if not ok:
+                      break
+              if not ok:
+                  break
+              rx = pth[-1]
+              if len(rx.snr) != len(ref_id):
+                  viol.append(dict(fingerprint='receiver-channel-count', what=f'{where}: receiver reports {len(rx.snr)} channels'))
+                  break
+              result = {'f': rec.steps[-1]['post']['f'], 'pch': rec.steps[-1]['post']['pch'], 'sr': rec.steps[-1]['post']['sr'],
+                        'ar': rec.steps[-1]['post']['ar'], 'nr': rec.steps[-1]['post']['nr'], 'snr': np.array(rx.snr_01nm)}
+              if base is None:
+                  base = result
+              else:
+                  for k in base:
+                      if not np.allclose(result[k], base[k], rtol=1e-12, atol=0):
+                          viol.append(dict(fingerprint='order-dependent-result', what=f'{where}: carriers supplied in order {order} '
+                                           f'give different {k}: {result[k][:3]} vs {base[k][:3]}'))
+                          break
+              traces += 1
         if kept and len(kept) < len(spec):
             tags['filtered-some-kept-some'] = 1
         if any(x['label'] in ('on_lo', 'on_hi') for x in kept):
@@ -391,6 +412,42 @@ def run_path(case):
             tags['three-band-path'] = 1
         if viol:
             break
+    # one request object propagated in both directions (what a bidirectional request does): each direction keeps the channels
+    # of the band common to ITS amplifiers
+    if not viol and case['spectrum'] != 'uniform':
+        paths = c.all_simple_trx_paths(net)
+        for p1 in paths:
+            p2 = next((q for q in paths if q[0].uid == p1[-1].uid and q[-1].uid == p1[0].uid), None)
+            if p2 is None:
+                continue
+            c1, u1 = path_common_bands(p1)
+            c2, u2 = path_common_bands(p2)
+            if c1 == c2:
+                continue
+            spec = edge_spectrum(sorted(set(c1) | set(c2)), sorted(set(u1) | set(u2)), case['variant'])
+            req = c.make_request(equipment, p1[0].uid, p1[-1].uid, spectrum=spec)
+            for p, com in ((p1, c1), (p2, c2)):
+                kept = expected_kept(spec, com)
+                try:
+                    pth, si, rec = c.propagate_recorded(p, req, equipment)
+                except Exception as exc:  # noqa
+                    if not kept and 'does not match' in str(exc):
+                        continue
+                    viol.append(dict(fingerprint=f'propagation-raised:{type(exc).__name__}',
+                                     what=f'net {case["net"]} {p[0].uid}->{p[-1].uid} with the request object already used on the '
+                                          f'opposite direction: {str(exc)[:200]}'))
+                    break
+                transitions += len(rec.steps)
+                got = rec.steps[0]['pre']['f'].tolist()
+                if len(got) != len(kept) or not np.allclose(sorted(got), [x['f'] for x in kept], rtol=0, atol=1.0):
+                    viol.append(dict(fingerprint='filter-set-differs:request-reused-on-other-direction',
+                                     what=f'net {case["net"]} {p[0].uid}->{p[-1].uid}: {len(got)} channels launched, expected '
+                                          f'{len(kept)} (bands common to this direction {com}); the same request object was '
+                                          f'propagated on the opposite direction before'))
+                    break
+            tags['request-reused-both-directions'] = 1
+            if viol:
+                break
     for v in viol:
         v['case'] = case
     return {'violations': viol[:4], 'transitions': transitions, 'traces': traces, 'nontrivial': bool(tags), 'tags': tags,
@@ -414,7 +471,8 @@ def main(rep, tier, seed):
     rep.absorb(results)
     rep.cov['bound'] = (f'{n1} carrier lists (all typings of 3 touching channels, every one-step overlap, baud>slot variants, '
                         f'5-channel lists) x all permutations x 2 constructors; {len(NETS)} networks x every simple path x '
-                        f'{len(list(variants))} edge-spectrum variants (+ uniform grid) x '
+                        f'{len(list(variants))} edge-spectrum variants (+ uniform grid; + a second spectrum with another band split on the same '
+                        f'element objects; + one request object propagated in both directions where the directions differ) x '
                         + ('4 carrier orders' if tier == 'quick' else 'reversed, interleaved, every rotation and every adjacent transposition '
                            'of the carrier list; + all typings of 4 touching channels / every one-step overlap of 4 in part 1'))
     rep.cov['space_size'] = len(cases)
